@@ -18,7 +18,7 @@ def run(chk, props=None, prop=None, bias=None):
     b = bias or BIAS
     core.e1_flow(chk, 'scen_server', 'ledger', {prop},
                  lambda rng: scen_server.gen_case(rng, chk.tier, rng.choice(b)), n, keyfn=keyfn,
-                 corpus=scen_server.corpus())
+                 corpus=scen_server.corpus(), extra_models=[('wakeup', scen_server.wakeup_lines)])
     chk.cov['rule'] = ('cases = random (Server or AsyncServer, capacity, worker threads, 2-8 caller threads / asyncio tasks issuing call() with/without '
                        'backpressure and finite or unbounded deadlines, stream() callers with early close, failing '
                        'requests, service durations, chooser incl. early timer firing, seed) run on the real Server '
@@ -33,7 +33,8 @@ TRUSTED = [
     'Lean 4.33.0 kernel; axioms per theorem as listed in coverage.obligation_list (subset of propext, Classical.choice, Quot.sound)',
     'hand-written model lean/MpsVerif/Model/Ledger.lean, tied to /repo by trace validation (drv ledger; Core.Val.validateW_sound) on every run: observable actions = caller enters call(), worker produced a response; state observations = public Server.backlog after every scheduling step, each caller\'s outcome, backlog at rest',
     'deterministic scheduler harness/detsched.py (threading primitives, SimpleQueue, virtual clock with early timer firing)',
-    'modelled not verified: threading.Condition (mutual exclusion, notify wakes a waiter, woken waiter re-acquires), dict insert/pop atomic under the GIL, concurrent.futures.Future (cancel succeeds iff not yet resolved), itertools.count() never repeats',
+    'modelled not verified: threading.Condition (mutual exclusion; notify takes the first waiter of the list, also one whose timed wait has expired but which has not re-acquired the lock yet; outcome of a timed wait decided at expiry), dict insert/pop atomic under the GIL, concurrent.futures.Future (cancel succeeds iff not yet resolved), itertools.count() never repeats',
+    'hand-written model lean/MpsVerif/Model/Wakeup.lean (wait-for-room protocol, callers counted by where they are), tied to /repo by trace validation (drv wakeup) of every case: ledger inserts/pops through a logging dict, wait/notify of the server\'s own condition object through instance-level wrappers (internal attribute names _uid_to_futures, _pipeline_notfull: if absent the observation is skipped and reported as such); queuing of notifications, expiry of timed waits and the choice of notify() are inferred',
     'the servlet is an abstract box in this model (emits each message once, any order, with the response of that message\'s input): proved of servlet trees separately (C02 layer 1)',
     'AsyncServer (asyncio condition, notifications delivered through the event loop) is driven by the same scenario with the callers as asyncio tasks on a cooperative-selector event loop (harness/cooploop.py) and validated against the same ledger model',
     'time is not modelled in Lean: "waits no longer than its timeout" is evaluated on the real code by the scheduler\'s timed-wait accounting',
